@@ -2,6 +2,12 @@
 
 package libinjection
 
+import (
+	"reflect"
+	"runtime"
+	"strings"
+)
+
 // Read-only accessors for external verification harnesses.
 // This file is only compiled with `-tags verif`; without the tag the
 // package is unchanged.
@@ -157,3 +163,17 @@ func VerifBlackEvents() []VerifNamedType {
 
 // VerifHexDecodeMap returns a copy of the hex digit table.
 func VerifHexDecodeMap() []int { return append([]int(nil), gsHexDecodeMap...) }
+
+// VerifDispatch returns, for every byte value, the name of the lexer function
+// the byte-dispatch table holds for it (e.g. "parseWord").
+func VerifDispatch() []string {
+	out := make([]string, len(byteParsers))
+	for i, f := range byteParsers {
+		name := runtime.FuncForPC(reflect.ValueOf(f).Pointer()).Name()
+		if k := strings.LastIndexByte(name, '.'); k >= 0 {
+			name = name[k+1:]
+		}
+		out[i] = name
+	}
+	return out
+}
